@@ -103,14 +103,16 @@ CLAIMS.update({
     },
     "C16": {
         "text": "Statistical freshness monitor: hash sets of every value that must not repeat, across threads and instances, "
-                "constant-bit detection on nonces, key-separation probe for header metadata.",
-        "design_ref": "§4 C16", "note": "Detects constant/low-entropy/counter-reset/cross-thread reuse, not 2^-96 collisions.",
+                "constant-bit detection on nonces, key-separation probe for header metadata; per-component freshness of rekeyed rights; "
+                "a long-lived-instance phase (generator moved 2^32..2^60 words ahead through rng() between identical batches).",
+        "design_ref": "§4 C16, §8.6", "note": "Detects constant/low-entropy/counter-reset/cross-thread reuse, not 2^-96 collisions.",
         "technique": "statistical uniqueness monitor over repeated identical calls (values read from the wire)",
     },
     "C17": {
         "text": "Tracing relation recomputed outside the crate (curve25519 via crypto_core, P-256 via p256) from scalars and "
-                "points read off the wire after every keygen/refresh/round trip; unknown ids must be refused.",
-        "design_ref": "§4 C17", "note": "Trusted base: wire reader, curve libraries.",
+                "points read off the wire after every keygen/refresh/round trip; unknown ids must be refused; two thirds of the "
+                "histories on master keys with 3 or 5 tracers; registries of 20 000 - 40 000 ids (issued = registered).",
+        "design_ref": "§4 C17, §8.6", "note": "Trusted base: wire reader, curve libraries.",
         "technique": "history monitor with independent group arithmetic on wire-level observations",
     },
 })
@@ -132,9 +134,10 @@ CLAIMS.update({
     },
     "C19": {
         "text": "Stress runs on one shared instance with schedule perturbation at the lock sites (hook), per-call sequential "
-                "oracles, cross-thread freshness sets, CPU-time based deadlock watchdog, lock-event log analysis; thorough adds "
+                "oracles, cross-thread freshness sets, CPU-time based deadlock watchdog, lock-event log analysis; first concurrent use "
+                "of hundreds of fresh instances; small calls around one multi-second call on the same instance; thorough adds "
                 "ThreadSanitizer (build-std) and Miri (many seeds) on the same scenario.",
-        "design_ref": "§4 C19", "note": "Samples schedules; the lock protocol is one mutex held per primitive. TSan/Miri reports fail the check.",
+        "design_ref": "§4 C19, §8.6", "note": "Samples schedules; the lock protocol is one mutex held per primitive. TSan/Miri reports fail the check.",
         "technique": "concurrent stress with schedule perturbation + sequential oracle; TSan and Miri in thorough",
     },
 })
